@@ -633,6 +633,28 @@ CONSUMERS |= {"ExceptionGroup"}          # copies the sequence into a tuple
 SELECTED += [("_get_payload", "packaging.metadata", "_get_payload")]
 X7_MESSAGE_ANN = ["email", "message", "Message"]
 # --- x7 end -----------------------------------------------------------------------------------------------------------
+# --- x9: ninth round (the `Tokenizer` methods, C07/C08/C09; the main loop of `parse_email`, C18) — run-time: lean/PkgModel/PyX9.lean
+X9_IMPORT = "PkgModel.PyX9"
+# the methods of the tokenizer are translated (state monad, `self` is the state); what stays primitive: the fields of the state
+# (`self.source`, `self.position`, `self.next_token`) and `self.rules[name].match(self.source, self.position)` over the
+# regenerated rules.  `Src/Tokenizer.lean` proves each translated method equal to the primitive of PyTok.lean that the
+# translated parser functions call, so the digest guard on the class (`STATE_GUARD`) is no longer consulted.
+SELECTED += [
+    ("Tokenizer.check", "packaging._tokenizer", "Tokenizer.check"),
+    ("Tokenizer.read", "packaging._tokenizer", "Tokenizer.read"),
+    ("Tokenizer.expect", "packaging._tokenizer", "Tokenizer.expect"),
+    ("Tokenizer.consume", "packaging._tokenizer", "Tokenizer.consume"),
+    ("Tokenizer.raise_syntax_error", "packaging._tokenizer", "Tokenizer.raise_syntax_error"),
+    # the generator behind `@contextlib.contextmanager` is cut at its one top-level `yield`: `__enter` returns the local that is
+    # live across the `yield`, `__exit` takes it as its first parameter; `__with` is the pair around `self.consume(body)`
+    ("Tokenizer.enclosing_tokens__enter", "packaging._tokenizer", "Tokenizer.enclosing_tokens"),
+    ("Tokenizer.enclosing_tokens__exit", "packaging._tokenizer", "Tokenizer.enclosing_tokens"),
+    ("Tokenizer.enclosing_tokens__with", "packaging._tokenizer", "Tokenizer.enclosing_tokens"),
+]
+X9_TOKENIZER_TRANSLATED = True      # the `Tokenizer` methods are proof obligations of C07/C08/C09 (no digest guard)
+X9_STATE_FIELDS = {"source": "PyX9.source", "next_token": "PyX9.next_token"}
+X9_MAIL_FUNCTIONS = set()
+# --- x9 end -----------------------------------------------------------------------------------------------------------
 
 
 # ---------------------------------------------------------------------------------------------- one function
@@ -1462,6 +1484,9 @@ class Fn:
     def translate(self):
         self.x6_prepare()                                     # x6: rewriting pass over the ast
         self.x7_prepare()                                     # x7: classmethods, exception objects
+        r9 = self.x9_prepare()                                # x9: tokenizer methods, `parse_email`
+        if r9 is not None:
+            return r9
         self.analyse()
         params = self.params()
         sig = " ".join(lname(p) for p in params)
@@ -1530,6 +1555,8 @@ class Fn:
             self.emit(ind, f"let mut {n} := {rhs}" if rhs_pure else f"let mut {n} ← {rhs}")
 
     def stmt(self, st, ind):
+        if self.x9_stmt(st, ind):                            # x9
+            return
         if self.x7_stmt(st, ind):                            # x7
             return
         if self.x3_stmt(st, ind):
@@ -2348,6 +2375,9 @@ class Fn:
             if e.attr == "position":                                                                 # x3
                 self.x3_state_guard()
                 return False, "PyTok.position"
+            if e.attr in X9_STATE_FIELDS and getattr(self, "x9_tok", False):                          # x9
+                self.ctx.imports.add(X9_IMPORT)
+                return False, X9_STATE_FIELDS[e.attr]
             raise Unsupported(f"attribute .{e.attr} of the {STATE_CLASS[1]}")
         if e.attr == "__name__" and isinstance(base, ast.Attribute) and base.attr == "__class__":       # x3
             return True, f"(PyVal.str (Py.ofString (PyRt.className {self.val(base.value)})))"
@@ -2418,6 +2448,9 @@ class Fn:
                     continue
                 raise Unsupported("**kwargs in a call")
             kws[k.arg] = k.value
+        r9 = self.x9_call(e, kws)                             # x9
+        if r9 is not None:
+            return r9
         r7 = self.x7_call(e, kws)                             # x7
         if r7 is not None:
             return r7
@@ -3168,6 +3201,8 @@ class Fn:
 
     def x3_state_guard(self):
         """the primitives of PyTok.lean mirror one text of the Tokenizer class"""
+        if X9_TOKENIZER_TRANSLATED:          # x9: the methods are translated and proved equal to the primitives
+            return
         cls = getattr(importlib.import_module(STATE_CLASS[0]), STATE_CLASS[1])
         if _class_digest(cls) != STATE_GUARD:
             raise Unsupported(f"the source of {STATE_CLASS[1]} is not the text its run-time primitives mirror")
@@ -4951,6 +4986,256 @@ class Fn:
             raise Unsupported("a local changed inside a try block is read on the path through its handler: " + ", ".join(sorted(bad)))
     # ================================================================================================ x7 end
 
+    # ================================================================================================ x9
+    # (a) methods of the tokenizer: `self` is the state of `PyTok.TM`; a rewriting pass (`_X9TokRewrite`) turns the accesses to
+    #     its fields into pseudo-calls `__x9_*` (translated by `x9_call`); the generator of `enclosing_tokens` is cut at its `yield`
+    # (b) `parse_email`: see `_X9MailRewrite`
+    def x9_prepare(self):
+        self.x9_tok = _x9_is_state_method(self.pyfunc)
+        self.x9_mail = (self.pyfunc.__module__, self.pyfunc.__qualname__) in X9_MAIL_FUNCTIONS
+        self.x9_io = self.ctx.x9_io.get(self.lean_name)          # name of the message parameter that is the state of `PyX9.SM`
+        if self.x9_tok:
+            self.ctx.imports.add(X9_IMPORT)
+            part = self.lean_name.rsplit("__", 1)[-1] if "__" in self.lean_name else None
+            if part == "with":
+                return self.x9_with_text()
+            if part in ("enter", "exit"):
+                self.node, self.x9_arity = _x9_split_generator(self.node, part)
+            self.node = _X9TokRewrite(self).run(self.node)
+        if self.x9_mail or self.x9_io:
+            self.ctx.imports.add(X9_IMPORT)
+            self.x9_mail_prepare()
+        return None
+
+    def x9_with_text(self):
+        """`with self.enclosing_tokens(o, c, around=a): self.consume(body)` from the two translated halves (for `src.call`)"""
+        node, _ = _x9_split_generator(self.node, "exit")
+        live = [a.arg for a in node.args.args[1:]][:len(node.args.args) - len(self.node.args.args)]
+        if len(live) != 1:
+            raise Unsupported("enclosing_tokens keeps other than one local across its yield")
+        self.ctx.state_fns.add(self.lean_name)
+        self.ctx.imports.add(STATE_IMPORT)
+        self.x9_arity = len(self.params()) + 1
+        base = self.lean_name.rsplit("__", 1)[0]
+        for part in ("enter", "exit"):
+            self.ctx.deps.setdefault(self.ctx.current, set()).add(f"{base}__{part}")
+        ps = " ".join(lname(p) for p in self.params()[1:])
+        return (f"def {self.lean_name} ({ps} body : PyVal) : {STATE_MONAD} PyVal := do\n"
+                f"  let __w ← {base}__enter {ps}\n"
+                f"  let _ ← PyTok.consume body\n"
+                f"  {base}__exit __w {ps}")
+
+    def x9_call(self, e, kws):
+        f = e.func
+        if isinstance(f, ast.Name) and f.id.startswith("__x9_"):
+            self.ctx.imports.add(X9_IMPORT)
+            a = e.args
+            simple = {"__x9_set_next_token": "PyX9.set_next_token", "__x9_advance": "PyX9.advance", "__x9_has_rule": "PyX9.has_rule",
+                      "__x9_rule_match": "PyX9.rule_match", "__x9_match_group0": "PyX9.match_group0",
+                      "__x9_msg_keys": "PyX9.msg_keys", "__x9_msg_get_all": "PyX9.msg_get_all", "__x9_decode_header": "PyX9.decode_header",
+                      "__x9_make_header_str": "PyX9.make_header_str", "__x9_msg_get_payload": "PyX7.msg_get_payload",
+                      "__x9_setdefault_append": "PyX9.dict_setdefault_append", "__x9_setdefault_extend": "PyX9.dict_setdefault_extend",
+                      "__x9_item_append": "PyX9.dict_item_append"}
+            if f.id in simple:
+                return False, simple[f.id] + "".join(" " + self.val(x) for x in a)
+            if f.id == "__x9_parse_message":         # the standard-library parser: an oracle call under the source text of the call
+                return False, f'PyRt.ext_call {self.use_ext()} "{a[0].value}" [{self.val(a[1])}]'
+            if f.id == "__x9_dict_pop":
+                return False, f"PyRt.dict_pop {self.val(a[0])} {self.val(a[1])}"
+            raise Unsupported(f"pseudo-call {f.id}")
+        # a dataclass of the tokenizer module built from all its fields (positional and keyword arguments, in field order)
+        if getattr(self, "x9_tok", False) and isinstance(f, ast.Name) and f.id not in self.locals:
+            import dataclasses
+            v = self.globals.get(f.id)
+            if inspect.isclass(v) and dataclasses.is_dataclass(v) and v.__module__ == STATE_CLASS[0]:
+                names = [fl.name for fl in dataclasses.fields(v)]
+                given = names[:len(e.args)] + list(kws)
+                if given != names or any(isinstance(x, ast.Starred) for x in e.args):
+                    raise Unsupported(f"{v.__name__} built other than from all its fields in order")
+                vals = list(e.args) + [kws[k] for k in list(kws)]
+                fields = ", ".join(f'("{k}", {self.val(x)})' for k, x in zip(names, vals))
+                return True, f'(PyVal.obj "{v.__name__}" [{fields}])'
+        return None
+
+    def x9_stmt(self, st, ind):
+        if getattr(self, "x9_tok", False):
+            # `raise self.m(…)` for a method of the tokenizer: the call first (it raises); a value that came back is not an exception
+            if isinstance(st, ast.Raise) and isinstance(st.exc, ast.Call) and isinstance(st.exc.func, ast.Attribute) \
+                    and isinstance(st.exc.func.value, ast.Name) and st.exc.func.value.id == self.state_param and st.cause is None:
+                p, c = self.expr(st.exc)
+                self.emit(ind, f"let _ ← {c}")
+                self.emit(ind, "throw PyRt.typeError")
+                return True
+            # `raise ParserSyntaxError(message, source=…, span=…)`: the class only; the arguments are evaluated
+            if isinstance(st, ast.Raise) and isinstance(st.exc, ast.Call) and st.cause is None:
+                cls = self.exc_class(st.exc)
+                for x in list(st.exc.args) + [k.value for k in st.exc.keywords]:
+                    p, c = self.expr(x)
+                    if not p:
+                        self.emit(ind, f"let _ ← {c}")
+                self.emit(ind, f'throw "{cls}"')
+                return True
+            if isinstance(st, ast.Expr) and isinstance(st.value, ast.Call) and isinstance(st.value.func, ast.Name) \
+                    and st.value.func.id in ("__x9_set_next_token", "__x9_advance"):
+                p, c = self.expr(st.value)
+                self.emit(ind, f"let _ ← {c}")
+                return True
+        return self.x9_mail_stmt(st, ind)
+
+    def x9_mail_prepare(self):
+        pass
+
+    def x9_mail_stmt(self, st, ind):
+        return False
+    # ================================================================================================ x9 end
+
+
+# ---------------------------------------------------------------------------------------------- x9: tokenizer methods
+def _x9_is_state_method(f):
+    qn = (getattr(f, "__qualname__", "") or "").split(".")
+    return getattr(f, "__module__", None) == STATE_CLASS[0] and len(qn) == 2 and qn[0] == STATE_CLASS[1]
+
+
+def _x9_split_generator(node, part):
+    """the function behind `@contextlib.contextmanager`, cut at its one top-level `yield`: the `enter` half returns the locals that
+    are live across the `yield` (one local: itself; otherwise a tuple), the `exit` half takes them as its first parameters.
+    -> (function node, arity including `self`)"""
+    import copy
+    node = copy.deepcopy(node)
+    idx = [i for i, st in enumerate(node.body) if isinstance(st, ast.Expr) and isinstance(st.value, ast.Yield) and st.value.value is None]
+    ys = [n for n in ast.walk(node) if isinstance(n, (ast.Yield, ast.YieldFrom))]
+    if len(idx) != 1 or len(ys) != 1:
+        raise Unsupported("a context manager with other than one top-level bare `yield`")
+    before, after = node.body[:idx[0]], node.body[idx[0] + 1:]
+    if any(isinstance(n, ast.Return) for st in before for n in ast.walk(st)):
+        raise Unsupported("return before the yield of a context manager")
+    params = {a.arg for a in node.args.args + node.args.kwonlyargs}
+    assigned = []
+    for st in before:
+        for n in ast.walk(st):
+            if isinstance(n, ast.Name) and isinstance(n.ctx, ast.Store) and n.id not in assigned and n.id not in params:
+                assigned.append(n.id)
+    used = {n.id for st in after for n in ast.walk(st) if isinstance(n, ast.Name) and isinstance(n.ctx, ast.Load)}
+    live = [v for v in assigned if v in used]
+    if any(isinstance(n, ast.Name) and isinstance(n.ctx, ast.Store) and n.id in params for st in before for n in ast.walk(st)):
+        raise Unsupported("a parameter rebound before the yield of a context manager")
+    node.decorator_list = []
+    node.returns = None
+    nself = len(node.args.args) + len(node.args.kwonlyargs)
+    if part == "enter":
+        ret = ast.Name(id=live[0], ctx=ast.Load()) if len(live) == 1 else ast.Tuple(elts=[ast.Name(id=v, ctx=ast.Load()) for v in live], ctx=ast.Load())
+        node.body = before + [ast.Return(value=ret)]
+        arity = nself
+    else:
+        node.args.args = [node.args.args[0]] + [ast.arg(arg=v, annotation=None) for v in live] + node.args.args[1:]
+        node.body = after or [ast.Pass()]
+        arity = nself + len(live)
+    ast.fix_missing_locations(node)
+    return node, arity
+
+
+class _X9TokRewrite(ast.NodeTransformer):
+    """x9: the fields of the tokenizer inside its own methods.  `self.next_token = e` -> `__x9_set_next_token(e)`,
+    `self.position += e` -> `__x9_advance(e)`, `k in self.rules` -> `__x9_has_rule(k)`,
+    `self.rules[k].match(self.source, self.position)` (also through a local bound once to `self.rules[k]` and used once, as the
+    receiver of that call, in the next statement) -> `__x9_rule_match(k)`, `m.group(0)` on a local bound once by such a match ->
+    `__x9_match_group0(m)`.  Any other use of `self.rules` is left alone (and refused)."""
+
+    def __init__(self, fn):
+        self.fn = fn
+        self.me = fn.node.args.args[0].arg
+
+    def is_field(self, e, attr):
+        return isinstance(e, ast.Attribute) and e.attr == attr and isinstance(e.value, ast.Name) and e.value.id == self.me
+
+    def call(self, name, *args):
+        return ast.Call(func=ast.Name(id=name, ctx=ast.Load()), args=list(args), keywords=[])
+
+    def run(self, node):
+        self.inline_rule_locals(node)
+        node = self.visit(node)
+        # locals bound once, by a rule match
+        self.match_locals = set()
+        for n in ast.walk(node):
+            if isinstance(n, ast.Assign) and len(n.targets) == 1 and isinstance(n.targets[0], ast.Name) and isinstance(n.value, ast.Call) \
+                    and isinstance(n.value.func, ast.Name) and n.value.func.id == "__x9_rule_match":
+                v = n.targets[0].id
+                if sum(1 for m in ast.walk(node) if isinstance(m, ast.Name) and m.id == v and isinstance(m.ctx, ast.Store)) == 1:
+                    self.match_locals.add(v)
+        me = self
+
+        class G(ast.NodeTransformer):
+            def visit_Call(self, c):
+                self.generic_visit(c)
+                if isinstance(c.func, ast.Attribute) and c.func.attr == "group" and isinstance(c.func.value, ast.Name) \
+                        and c.func.value.id in me.match_locals and len(c.args) == 1 and not c.keywords \
+                        and isinstance(c.args[0], ast.Constant) and c.args[0].value == 0 and c.args[0].value is not False:
+                    return ast.copy_location(me.call("__x9_match_group0", c.func.value), c)
+                return c
+
+            def visit_Subscript(self, c):
+                self.generic_visit(c)
+                if isinstance(c.ctx, ast.Load) and isinstance(c.value, ast.Name) and c.value.id in me.match_locals \
+                        and isinstance(c.slice, ast.Constant) and c.slice.value == 0 and c.slice.value is not False:
+                    return ast.copy_location(me.call("__x9_match_group0", c.value), c)
+                return c
+        node = G().visit(node)
+        ast.fix_missing_locations(node)
+        return node
+
+    def inline_rule_locals(self, node):
+        """`x = self.rules[k]` directly followed by a statement whose only use of `x` is `x.match(self.source, self.position)`,
+        `x` bound once and used once: the look-up moves into the call (nothing is evaluated in between)"""
+        for parent in ast.walk(node):
+            for field in ("body", "orelse", "finalbody"):
+                body = getattr(parent, field, None)
+                if not isinstance(body, list):
+                    continue
+                i = 0
+                while i + 1 < len(body):
+                    st = body[i]
+                    if isinstance(st, ast.Assign) and len(st.targets) == 1 and isinstance(st.targets[0], ast.Name) \
+                            and isinstance(st.value, ast.Subscript) and self.is_field(st.value.value, "rules"):
+                        x = st.targets[0].id
+                        stores = [m for m in ast.walk(node) if isinstance(m, ast.Name) and m.id == x and isinstance(m.ctx, ast.Store)]
+                        loads = [m for m in ast.walk(node) if isinstance(m, ast.Name) and m.id == x and isinstance(m.ctx, ast.Load)]
+                        nxt = body[i + 1]
+                        calls = [c for c in ast.walk(nxt) if isinstance(c, ast.Call) and isinstance(c.func, ast.Attribute)
+                                 and c.func.attr == "match" and isinstance(c.func.value, ast.Name) and c.func.value.id == x]
+                        first = nxt.value if isinstance(nxt, (ast.Assign, ast.Expr, ast.Return)) else None
+                        if len(stores) == 1 and len(loads) == 1 and len(calls) == 1 and first is calls[0]:
+                            calls[0].func.value = st.value
+                            del body[i]
+                            continue
+                    i += 1
+
+    def visit_Assign(self, node):
+        self.generic_visit(node)
+        if len(node.targets) == 1 and self.is_field(node.targets[0], "next_token"):
+            return ast.copy_location(ast.Expr(value=self.call("__x9_set_next_token", node.value)), node)
+        return node
+
+    def visit_AugAssign(self, node):
+        self.generic_visit(node)
+        if self.is_field(node.target, "position") and isinstance(node.op, ast.Add):
+            return ast.copy_location(ast.Expr(value=self.call("__x9_advance", node.value)), node)
+        return node
+
+    def visit_Compare(self, node):
+        self.generic_visit(node)
+        if len(node.ops) == 1 and isinstance(node.ops[0], (ast.In, ast.NotIn)) and self.is_field(node.comparators[0], "rules"):
+            c = ast.copy_location(self.call("__x9_has_rule", node.left), node)
+            return c if isinstance(node.ops[0], ast.In) else ast.copy_location(ast.UnaryOp(op=ast.Not(), operand=c), node)
+        return node
+
+    def visit_Call(self, node):
+        self.generic_visit(node)
+        f = node.func
+        if isinstance(f, ast.Attribute) and f.attr == "match" and isinstance(f.value, ast.Subscript) and self.is_field(f.value.value, "rules") \
+                and len(node.args) == 2 and not node.keywords and self.is_field(node.args[0], "source") and self.is_field(node.args[1], "position"):
+            return ast.copy_location(self.call("__x9_rule_match", f.value.slice), node)
+        return node
+
 
 # ---------------------------------------------------------------------------------------------- x6: the rewriting pass
 class _X6Rewrite(ast.NodeTransformer):
@@ -5618,6 +5903,7 @@ class Ctx:
         self.state_fns = set()     # x3: lean names of functions that run in the state monad
         self.x7_mx = set()         # x7: lean names of functions that run in PyX7.MX (exception objects)
         self.x7_clsmethods = set() # x7: lean names of classmethods (their `cls` parameter is dropped)
+        self.x9_io = {}            # x9: lean name -> the message parameter that is the state of `PyX9.SM`
         self.loops = set()         # x3: lean names of functions with a `while` loop (they take fuel as well)
         self.dispatchers = {}      # name -> Lean definition text
         self.dispatcher_deps = {}
@@ -5798,6 +6084,8 @@ class Ctx:
     # -- functions
     def is_state_fn(self, f):
         """x3: the first parameter is annotated with the state class (`tokenizer: Tokenizer`)"""
+        if _x9_is_state_method(f):                            # x9: a method of the state class (`self` is the state)
+            return True
         try:
             node = ast.parse(textwrap.dedent(inspect.getsource(f))).body[0]
         except (OSError, SyntaxError, TypeError):
@@ -5892,7 +6180,10 @@ def _translate_all(ctx):
         if obj is not None:
             try:
                 arities[lean_name] = _arity(obj)
-                text = Fn(ctx, lean_name, obj).translate()
+                fn_ = Fn(ctx, lean_name, obj)
+                text = fn_.translate()
+                if getattr(fn_, "x9_arity", None) is not None:       # x9: a part of a split generator has parameters of its own
+                    arities[lean_name] = fn_.x9_arity
                 missing = _missing_runtime(text)
                 if missing:
                     # containment: a call the run-time has no primitive for must not reach the Lean build (it would
